@@ -42,7 +42,7 @@ ASSUMPTIONS = [
     "bounded response: a data packet starts at most 2 cycles after the IN request; ERDY is requested at most 2 cycles "
     "after data is available and the generator is ready",
 ]
-BOUNDS = "BMC from reset, K=14 (quick) / K=20 (thorough); all stream/host/link/generator timing inputs free"
+BOUNDS = "BMC from reset, K=12 (quick) / K=18 (thorough, plus best-effort K=22); all stream/host/link/generator timing inputs free"
 OUTSIDE = "ep_reset; bursts (NumP > 1 treated as 1); packet sizes other than 8; more than 4 queued packets; the real " \
           "link layer and TransactionPacketGenerator (their contracts are C45 and the link properties)"
 
@@ -347,8 +347,13 @@ class SSInHarness(Harness):
 
 def queries(tier):
     f = SSInHarness
-    K = 14 if tier == "quick" else 20
-    return [
-        Query("bmc_free", f, K, timeout=600, desc="stream, host, link and generator timing free every cycle"),
-        Query("cosim", f, 0, kind="cosim", cosim_cycles=200 if tier == "quick" else 1000),
+    quick = tier == "quick"
+    qs = [
+        Query("bmc_free", f, 12 if quick else 18, timeout=900,
+              desc="stream, host, link and generator timing free every cycle"),
+        Query("cosim", f, 0, kind="cosim", cosim_cycles=200 if quick else 1000),
     ]
+    if not quick:
+        qs.append(Query("bmc_free_deep", f, 22, timeout=900, covers=[], required=False,
+                        desc="same environment, deeper (best effort: several assertions need > 10 min at this depth)"))
+    return qs
